@@ -2548,8 +2548,9 @@ func c14Allow(feature string) bool {
 			return false
 		}
 	}
-	// repaired in /repo (F142: default clause not last, F141: function values with several arguments): generated again
-	if feature == "earlydefault" || feature == "lambda2" {
+	// repaired in /repo (F142: default clause not last, F141: function values with several arguments, F157: functions and
+	// variables used only by an init() that is not the last one of its package): generated again
+	if feature == "earlydefault" || feature == "lambda2" || feature == "initusage" {
 		return true
 	}
 	for _, f := range strings.Split(os.Getenv("C14_ALLOW"), ",") {
